@@ -168,6 +168,12 @@ Fixpoint scan_fallback (kids : list node) (found : option (list attr * list node
   | _ :: r => scan_fallback r found
   end.
 
+(** which encoding names of a text inclusion are supported is left open by XInclude (an unsupported one is a
+    resource error); here: the attribute is absent or its value does not start with '?' (the convention of
+    the property's generator for a name that no implementation knows) *)
+Definition encoding_ok (enc : option str) : bool :=
+  match enc with Some (63 :: _) => false | _ => true end.
+
 Definition sres := sum xerr (list snode).
 
 Section Spec.
@@ -187,14 +193,14 @@ Fixpoint smap (f : node -> sres) (l : list node) : sres :=
 (** [xi_spec fuel onpath base n]: the information items that replace [n].
     [onpath] = URIs of the documents on the current inclusion path (the document being processed first),
     [base] = base URI in force at the parent of [n]. *)
-Fixpoint xi_spec (fuel : nat) (onpath : list path) (base : path) (n : node) : sres :=
-  match fuel with
-  | O => inl XE_Fuel
-  | S f =>
-    match n with
-    | Text s => inr [SText s]
-    | Comment s => inr [SComment s]
-    | Elem ns nm at_ kids =>
+Fixpoint xi_spec (fuel : nat) (onpath : list path) (base : path) (n : node) {struct fuel} : sres :=
+  match n with
+  | Text s => inr [SText s]
+  | Comment s => inr [SComment s]
+  | Elem ns nm at_ kids =>
+    match fuel with
+    | O => inl XE_Fuel
+    | S f =>
       let b := elem_base base at_ in
       if is_include ns nm then
         match scan_fallback kids None with
@@ -221,6 +227,7 @@ Fixpoint xi_spec (fuel : nat) (onpath : list path) (base : path) (n : node) : sr
                      | _ => fallback
                      end
               else if str_eqb parse s_text then
+                if negb (encoding_ok (get_attr NS_NONE s_encoding at_)) then fallback else
                 match lookup fs target with
                 | Some (FText s) => inr [SText s]
                 | _ => fallback
